@@ -3,7 +3,7 @@
    guard exactly once and nothing else; and when no guard is alive or leaked, every lock is exactly as it was at the
    start. *)
 From HL Require Import Base Model Shape Algo Api OpsLemmas Lemmas ShapeLemmas ApiLemmas QuietLemmas Pf_Calls Check Monitors
-  Pf_C06 Pf_C13 Pf_Acct Pf_Hist.
+  Pf_C06 Pf_C13 NoRel Pf_Acct Pf_Hist.
 
 (* ---------------------------------------------------------------- multisets of naturals *)
 Lemma length_remove1 x l : memb x l = true -> S (length (remove1 x l)) = length l.
@@ -98,6 +98,8 @@ Definition judge_C05p (sc : scen) (ms : tid -> mthread) (prev : list rawst) (t :
        Nat.eqb (length (filter (fun e => match e with ERaw _ k _ _ => is_rel_rop k | _ => false end) (co_evs co)))
                (length gl) &&
        negb (existsb (fun l => holds_by t (nth l (co_holds co) raw_free)) gl)
+   | AAcquire c _ (FScoped _ _ | FScopedTry _ _), (ROk | RPanicked) =>
+       forallb (fun l => Nat.eqb (releases_of l (co_evs co)) 1) (leaves (shape_of sc c))
    | _, _ => true
    end).
 
@@ -107,7 +109,7 @@ Proof.
   unfold judge_C05, judge_C05p. intros H. apply andb_true_iff in H. destruct H as [H1 H2].
   apply andb_true_iff. split.
   - destruct (stop_code (co_ret co)); [reflexivity|exact H1].
-  - destruct o; try reflexivity; destruct (co_ret co); try reflexivity; exact H2.
+  - exact H2.
 Qed.
 
 Lemma hc_not_holding t s : holds_by t s = false -> hc t s = 0.
@@ -145,9 +147,10 @@ Proof.
 Qed.
 
 (* dropping / unlocking a guard: every hold of the guard released exactly once, nothing else released *)
-Lemma guard_release_counts sc h ms t dd m items w' out :
+Lemma guard_release_counts sc h ms t p m items w' out :
   wf_hist sc -> qinv sc h ms -> real sc t -> guard (h_loc h t) = Some (mkg m items) ->
-  run nopw t (with_key true dd (drop_items m false items)) (clear_trace (h_w h)) = (out, w') ->
+  ops_in relonly p ->
+  run nopw t p (clear_trace (h_w h)) = (out, w') ->
   (forall x, w_raw w' x = rel_all t m (gleaves items) (w_raw (h_w h)) x) ->
   (exists evs, w_trace w' = evs ++ [] /\ Forall clean_ev evs) ->
   let gl := guard_leaves sc (mt_guard (ms t)) in
@@ -155,13 +158,13 @@ Lemma guard_release_counts sc h ms t dd m items w' out :
   length (filter (fun e => match e with ERaw _ k _ _ => is_rel_rop k | _ => false end) (rev (w_trace w'))) = length gl /\
   forall l, In l gl -> holds_by t (w_raw w' l) = false.
 Proof.
-  intros W Q Rt G Rn Hraw [evc [Tc Fc]] gl.
+  intros W Q Rt G Hrel Rn Hraw [evc [Tc Fc]] gl.
   destruct (qi_guard _ _ _ Q t m items G) as [_ [ND [Hh [c [MG Hi]]]]].
   assert (Egl : gl = locks_of (gleaves items)).
   { unfold gl, guard_leaves. rewrite MG. rewrite leaves_kleaves, Hi, gleaves_gitems. reflexivity. }
   destruct (run_acct nopw t _ _ _ _ Rn) as [evs [T [Fb Hacc]]]. cbn [clear_trace w_trace] in T.
   destruct (run_rel_res nopw t _ _ _ _ Rn) as [evr [Tr Fr]]. cbn [clear_trace w_trace] in Tr.
-  destruct (run_relonly nopw t _ _ _ _ (with_key_relonly true dd _ (drop_items_relonly m false items)) Rn) as [eva [Ta Fa]].
+  destruct (run_relonly nopw t _ _ _ _ Hrel Rn) as [eva [Ta Fa]].
   cbn [clear_trace w_trace] in Ta.
   rewrite app_nil_r in T, Tc, Tr, Ta. rewrite T in Tc, Tr, Ta. subst evc evr eva. rewrite T.
   assert (Hin : forall l, In l gl -> releases_of l evs = 1 /\ holds_by t (w_raw w' l) = false).
@@ -185,6 +188,57 @@ Proof.
     + apply memb_In in Mx. now destruct (Hin x Mx).
     + apply Hout. intros Hx. apply memb_In in Hx. congruence.
   - intros l Hl. now destruct (Hin l Hl).
+Qed.
+
+
+(* ---------------------------------------------------------------- a scoped call releases each of its leaves exactly once *)
+Lemma rop_rel_is k : rop_rel k = is_rel_rop k.
+Proof. destruct k; reflexivity. Qed.
+Lemma rop_acq_is k : rop_acq k = is_acq_rop k.
+Proof. destruct k; reflexivity. Qed.
+
+Lemma releases_norel l evs : Forall norel_ev evs -> releases_of l evs = 0.
+Proof.
+  induction 1 as [|e r He Hr IH]; [reflexivity|]. unfold releases_of in *. cbn [filter].
+  destruct e as [t0 k l0 r0| | | |]; try exact IH. simpl in He. rewrite rop_rel_is in He. rewrite He. cbn [andb].
+  destruct r0; exact IH.
+Qed.
+
+Lemma acquires_tail l evs : Forall tail_ev evs -> acquires_of l evs = 0.
+Proof.
+  induction 1 as [|e r He Hr IH]; [reflexivity|]. unfold acquires_of in *. cbn [filter].
+  destruct e as [t0 k l0 r0| | | |]; try exact IH. simpl in He. rewrite rop_acq_is in He. rewrite He. cbn [andb].
+  destruct r0 as [|b| | |]; try exact IH. destruct b; exact IH.
+Qed.
+
+Lemma acquires_uev l evs : Forall uev evs -> acquires_of l evs = 0.
+Proof.
+  induction 1 as [|e r He Hr IH]; [reflexivity|]. unfold acquires_of in *. cbn [filter].
+  destruct e; try exact IH. destruct He.
+Qed.
+
+Lemma scoped_release_counts sc t c m w w' p out :
+  scoped_shape sc t c m w w' -> w_trace w = [] -> run nopw t p w = (out, w') ->
+  (forall l, hc t (w_raw w l) = 0) -> (forall x, w_raw w' x = w_raw w x) ->
+  can_all m (kleaves (shape_of sc c)) (w_raw w) = true -> NoDup (leaves (shape_of sc c)) ->
+  forallb (fun l => Nat.eqb (releases_of l (rev (w_trace w'))) 1) (leaves (shape_of sc c)) = true.
+Proof.
+  intros [w1 [w2 [evA [evR [TA [NA [BA [RA [NR [HA [Hraw [F [TR FR]]]]]]]]]]]]] Tw Rn H0 Hsame Can ND.
+  destruct (fr_tr _ _ F) as [U [TU FU]]. cbn [emit w_trace] in TU.
+  destruct (run_acct nopw t _ _ _ _ Rn) as [evs [T [_ Hacc]]]. rewrite Tw, app_nil_r in T.
+  assert (Eevs : evs = evR ++ U ++ EMark t 1 :: evA).
+  { rewrite <- T, TR, TU, TA, Tw, app_nil_r. reflexivity. }
+  apply forallb_forall. intros l Hl. rewrite releases_of_rev, T.
+  specialize (Hacc l). rewrite Hsame, H0 in Hacc. specialize (HA l). rewrite H0 in HA.
+  rewrite (releases_norel l evA NR) in HA.
+  assert (H1 : hc t (w_raw w1 l) = 1).
+  { rewrite Hraw. rewrite leaves_kleaves in Hl, ND. destruct (in_locks_of _ _ Hl) as [k Hk].
+    rewrite (acq_all_in t m _ _ k l ND Hk). apply hc_acq1; [|apply H0].
+    unfold can_all in Can. rewrite forallb_forall in Can. apply (Can (k, l) Hk). }
+  assert (Acq : acquires_of l evs = 1).
+  { rewrite Eevs, !acquires_of_app. rewrite (acquires_tail l evR FR), (acquires_uev l U FU).
+    change (EMark t 1 :: evA) with ([EMark t 1] ++ evA). rewrite acquires_of_app. cbn. unfold lock, tid in *. lia. }
+  apply Nat.eqb_eq. unfold lock, tid in *. lia.
 Qed.
 
 (* ---------------------------------------------------------------- one history step, exposed *)
@@ -218,7 +272,7 @@ Lemma step_C05p sc nl np h ms t o h' co :
 Proof.
   intros W Q Hin St. pose proof (real_in _ _ _ Hin) as Rt.
   destruct (hstep_cases sc nl np h ms t o W Q Hin) as [[Hp E]|[p [out [w' [Hp [Rn [CO E]]]]]]]; rewrite E in St; inversion St; subst h' co; clear St E.
-  - unfold judge_C05p. cbn [co_ret co_evs stop_code existsb negb andb]. destruct o; reflexivity.
+  - unfold judge_C05p. cbn [co_ret co_evs stop_code existsb negb andb]. destruct o as [| | |c m f| | | | | | | | |]; try reflexivity. destruct f; reflexivity.
   - unfold judge_C05p. cbn [co_ret co_evs co_holds].
     set (lc := h_loc h t) in *. set (rc := snd (api_fin (sc_env sc) lc o out)) in *.
     apply andb_true_iff. split.
@@ -234,11 +288,42 @@ Proof.
                 negb (existsb (fun l => holds_by t (nth l (snapshot_holds nl w') raw_free)) gl) = true).
       { intros dd m items G -> Hraw Hrc gl.
         assert (Sc : stop_code rc = false) by (rewrite Hrc; reflexivity).
-        destruct (guard_release_counts sc h ms t dd m items w' out W Q Rt G Rn Hraw (cq_clean _ _ _ _ _ _ _ CO Sc)) as [A [B C]].
+        destruct (guard_release_counts sc h ms t _ m items w' out W Q Rt G (with_key_relonly true dd _ (drop_items_relonly m false items)) Rn Hraw (cq_clean _ _ _ _ _ _ _ CO Sc)) as [A [B C]].
         fold gl in A, B, C. rewrite A, B, Nat.eqb_refl. cbn [andb]. apply negb_true_iff.
         apply not_true_is_false. intros X. apply existsb_exists in X. destruct X as [l [Hl Hh]].
         rewrite nth_snapshot_not_held1 in Hh; [discriminate|]. now apply C. }
-      destruct o; try reflexivity.
+      destruct o as [| | |c m f| | | | | | | | |]; try reflexivity.
+      * (* AAcquire: scoped calls *)
+        assert (Sc : forall lent body, (f = FScoped lent body \/ f = FScopedTry lent body) -> (rc = ROk \/ rc = RPanicked) ->
+                  forallb (fun l => Nat.eqb (releases_of l (rev (w_trace w'))) 1) (leaves (shape_of sc c)) = true).
+        { intros lent body Hf Hrc.
+          assert (IS : is_scoped (AAcquire c m f) = Some (c, m)) by (destruct Hf as [-> | ->]; reflexivity).
+          pose proof (cq_scoped _ _ _ _ _ _ _ CO c m IS) as X. fold lc rc in X.
+          assert (Sh : scoped_shape sc t c m (clear_trace (h_w h)) w') by (destruct Hrc as [E|E]; rewrite E in X; exact X).
+          assert (Stop : stop_code rc = false) by (destruct Hrc as [E|E]; rewrite E; reflexivity).
+          pose proof (acq_haskey _ _ _ _ _ _ Hp) as Hk.
+          assert (H0 : forall l, hc t (w_raw (clear_trace (h_w h)) l) = 0).
+          { intros l. apply hc_not_holding. apply (haskey_holds_nothing sc h ms t Q Rt Hk). }
+          destruct (wh_colls _ W t c m f Hin) as [s [Hn [Ha ND]]].
+          assert (Hs : shape_of sc c = s) by (unfold shape_of; now rewrite Hn).
+          apply (scoped_release_counts sc t c m _ w' p out Sh eq_refl Rn H0).
+          - intros x. rewrite (cq_raw _ _ _ _ _ _ _ CO Stop x). fold lc rc. destruct Hf as [-> | ->]; reflexivity.
+          - (* the closure ran, so the acquisition had succeeded *)
+            destruct (can_all m (kleaves (shape_of sc c)) (w_raw (clear_trace (h_w h)))) eqn:Cn; [reflexivity|]. exfalso.
+            rewrite Hs in Cn. cbn [api_prog] in Hp. unfold coll in Hp. cbn [sc_env e_colls] in Hp. fold lc in Hk. rewrite Hn, Hk in Hp.
+            destruct Hf as [-> | ->]; injection Hp as <-.
+            + pose proof (raw_lock_all_or_wait t m (e_am (sc_env sc)) s Ha ND (e_fuel (sc_env sc)) _
+                            (quiet_clear _ (qi_quiet _ _ _ Q)) (wh_fuel _ W)) as L. rewrite Cn in L. destruct L as [w1 R1].
+              rewrite (run_scoped_rest_blocked _ _ _ _ _ _ _ _ _ R1) in Rn. inversion Rn; subst out w'.
+              unfold rc in Hrc. cbn in Hrc. destruct Hrc; discriminate.
+            + destruct (run_raw_try t m (e_am (sc_env sc)) s _ (quiet_clear _ (qi_quiet _ _ _ Q)) Ha ND) as [w1 [R1 _]].
+              rewrite Cn in R1. pose proof (run_with_key_done nopw t (negb lent) false _ _ _ _ R1) as Rk. cbn iota in Rk.
+              rewrite (run_bind_done _ _ _ _ _ _ _ Rk) in Rn. cbn in Rn. inversion Rn; subst out w'.
+              unfold rc in Hrc. cbn in Hrc. destruct Hrc; discriminate.
+          - now rewrite Hs. }
+        destruct f as [| |lent body|lent body]; try reflexivity.
+        -- destruct rc eqn:Erc; try reflexivity; apply (Sc lent body); auto.
+        -- destruct rc eqn:Erc; try reflexivity; apply (Sc lent body); auto.
       * (* AGuardDrop *)
         destruct rc eqn:Erc; try reflexivity.
         cbn [api_prog] in Hp. fold lc in Hp. destruct (guard lc) as [[gm items]|] eqn:G; [|discriminate].
